@@ -666,6 +666,65 @@ def apply_rws(sf, ed, spec, lo_rw, hi_rw, arms=()):
                 ed.rw(st[h].start, st[h1].end, new, tag)
 
 
+def auto_r31(sf, ed, lo, hi):
+    """Rule R31: `match E { P if G => A, _ => B }` (exactly these two arms) becomes `match E { P => { if G { A } else { B } }
+    _ => B }`. Verus 0.2026.09.13 loses `final(self)` at a `return` in an arm that FOLLOWS a guarded arm when the function
+    reborrows a field of `&mut self` later on (a failed postcondition "at this exit" on code for which it holds); without
+    the guard the encoding is complete. Definitionally equal as long as B mentions no name bound by P (checked)."""
+    st, m = sf.st, sf.m
+    i = lo
+    while i < hi:
+        if st[i].kind == 'id' and st[i].text == 'match':
+            j = i + 1
+            while j < hi and st[j].text != '{':
+                j = m[j] + 1 if st[j].text in ('(', '[') else j + 1
+            if j >= hi:
+                break
+            close = m[j]
+            # parse the arms
+            arms = []
+            k = j + 1
+            ok = True
+            while k < close:
+                p0 = k
+                g0 = None
+                while k < close and st[k].text != '=>':
+                    if st[k].text in OPEN:
+                        k = m[k] + 1
+                        continue
+                    if st[k].text == 'if' and g0 is None:
+                        g0 = k
+                    k += 1
+                if k >= close:
+                    ok = False
+                    break
+                arrow = k
+                b0 = k + 1
+                if st[b0].text == '{':
+                    b1 = m[b0]
+                    k = b1 + 1
+                else:
+                    k = b0
+                    while k < close and st[k].text != ',':
+                        k = m[k] + 1 if st[k].text in OPEN else k + 1
+                    b1 = k - 1
+                if k < close and st[k].text == ',':
+                    k += 1
+                arms.append((p0, g0, arrow, b0, b1))
+            if ok and len(arms) == 2 and arms[0][1] is not None and arms[1][1] is None \
+                    and arms[1][2] == arms[1][0] + 1 and st[arms[1][0]].text == '_':
+                (p0, g0, arrow, a0, a1), (_q0, _g, _ar, c0, c1) = arms
+                bound = set(t.text for t in st[p0:g0] if t.kind == 'id' and t.text[:1].islower() and t.text not in ('ref', 'mut'))
+                if not any(t.kind == 'id' and t.text in bound for t in st[c0:c1 + 1]):
+                    btxt = sf.src[st[c0].start:st[c1].end]
+                    ed.rw(st[g0].start, st[g0].end, '=> { if', 'R31')
+                    ed.rw(st[arrow].start, st[arrow].end, '{', 'R31')
+                    ed.rw(st[a1].end, st[a1].end, ' } else { ' + btxt + ' } }', 'R31')
+            i = j + 1
+            continue
+        i += 1
+
+
 def auto_r2(sf, ed, lo, hi, arms=()):
     """Rule R2, applied wherever it is needed: a closure parameter `_` (Verus: "only variables are supported here")
     becomes a named unused variable. Skipped where an explicit rewrite already covers the token."""
@@ -839,6 +898,7 @@ def emit_item(spec, log, vacuity=False):
     apply_rws(sf, ed, spec, lo_rw, hi_rw, arms)
     if is_fn and body_open is not None and 'sigonly' not in spec.opts:
         auto_r2(sf, ed, body_open + 1, it.last, arms)
+        auto_r31(sf, ed, body_open + 1, it.last)
     render_or_arms(sf, ed, arms)
     for key in spec.sections:
         if key not in used and key != 'pre':
@@ -947,6 +1007,7 @@ def emit_slice(spec, log, vacuity=False):
     place_ghost_at_anchors(sf, ed, spec, lo, hi + 1, set())
     apply_rws(sf, ed, spec, lo, hi + 1)
     auto_r2(sf, ed, lo, hi + 1)
+    auto_r31(sf, ed, lo, hi + 1)
     if sel[0] == 'loopbody':
         # Rule R30: in the lifted body of a loop, an unlabelled `continue` of THAT loop (not of a loop or closure nested in
         # the body) ends the iteration: it becomes `return <tail>` -- what the lifted function does at its end anyway
